@@ -32,7 +32,14 @@ func seqs(symbols []string, maxLen int) [][]string {
 
 func scenarios(c *vlib.Ctx) []*slib.Scn {
 	var out []*slib.Scn
-	add := func(fam string, p modules.C07Params, bound int) {
+	var add func(fam string, p modules.C07Params, bound int)
+	add = func(fam string, p modules.C07Params, bound int) {
+		if fam == "serial" && !p.Late {
+			// the same driver, exploring also the interleavings at the moments the deadlines expire (clock advance phase)
+			q := p
+			q.Late = true
+			add(fam, q, vlib.Pick(c, 1, 2))
+		}
 		out = append(out, &slib.Scn{Scenario: modules.VerifC07(p), Family: "c07/" + fam, Bound: bound})
 		// the same driver under the second default scheduler (youngest thread first)
 		sc := modules.VerifC07(p)
@@ -45,7 +52,7 @@ func scenarios(c *vlib.Ctx) []*slib.Scn {
 		t1 = append(t1, o+"1")
 	}
 	var t12 []string
-	for _, o := range ops {
+	for _, o := range append(append([]string{}, ops...), "md") { // incl. MaxDelay(10s)
 		t12 = append(t12, o+"1", o+"2")
 	}
 	b := vlib.Pick(c, 2, 3)
@@ -82,14 +89,21 @@ func scenarios(c *vlib.Ctx) []*slib.Scn {
 	// a short maximum delay on the long-running task 2: its deadline passes while it runs and another task waits
 	for _, x := range []string{"q2", "p2", "a2"} {
 		for _, y := range []string{"q1", "p1", "a1", "s51"} {
-			add("serial", modules.C07Params{Scripts: [][]string{{"md2", x, "w", y}}, Tasks: 2, Body: "long2", Serial: true}, vlib.Pick(c, 1, 2))
+			add("serial", modules.C07Params{Scripts: [][]string{{"md2", x, "w", y}}, Tasks: 2, Body: "long2", Serial: true}, vlib.Pick(c, 2, 3))
+			add("serial", modules.C07Params{Scripts: [][]string{{"md1", x, "w", y}}, Tasks: 2, Body: "long2", Serial: true}, vlib.Pick(c, 2, 3))
 		}
 	}
 	// both tasks wait behind a blocker (no call re-arms the schedule handler's timer after task 2 was started from the queue)
 	for _, x := range []string{"q2", "p2", "a2"} {
 		for _, y := range []string{"q1", "p1", "a1"} {
-			add("serial", modules.C07Params{Scripts: [][]string{{"md2", x, y}}, Tasks: 2, Body: "long2", Serial: true, Blocker: true}, vlib.Pick(c, 1, 2))
-			add("serial", modules.C07Params{Scripts: [][]string{{"md1", x, y}}, Tasks: 2, Body: "long2", Serial: true, Blocker: true}, vlib.Pick(c, 1, 2))
+			add("serial", modules.C07Params{Scripts: [][]string{{"md2", x, y}}, Tasks: 2, Body: "long2", Serial: true, Blocker: true}, vlib.Pick(c, 2, 3))
+			add("serial", modules.C07Params{Scripts: [][]string{{"md1", x, y}}, Tasks: 2, Body: "long2", Serial: true, Blocker: true}, vlib.Pick(c, 2, 3))
+		}
+	}
+	// a timer comes due while the caller is about to make its next call on the same task (the handler races with the call)
+	for _, first := range []string{"s51", "q1"} {
+		for _, next := range []string{"s51", "s1001", "q1", "p1", "a1", "c1", "sz1", "m1"} {
+			add("racing-timer", modules.C07Params{Scripts: [][]string{{first, "r5", next}}, Tasks: 1, Body: "plain"}, vlib.Pick(c, 2, 3))
 		}
 	}
 	// schedule / cancel on two tasks: every sequence of three calls (a cancelled entry must not hold up the schedule)
@@ -135,7 +149,7 @@ func scenarios(c *vlib.Ctx) []*slib.Scn {
 func main() {
 	vlib.Main("C07", "model_checking", func(c *vlib.Ctx) {
 		c.Rule("stateless exploration of all interleavings within a deviation bound of the real modules package (source-instrumented, queue handler, schedule handler and microtask scheduler run as threads, virtual clock): " +
-			"every sequence of <= 2 task API calls (Queue, QueuePrioritized, StartASAP, Schedule +5s/+100s/zero, MaxDelay(0), Cancel; MaxDelay(10s) in the serial family) on two tasks and <= 3 on one task by one submitter, two submitters colliding on one task, self-requeueing and long-running bodies, a task submitted again while another one runs (one after the other), every 3-call schedule/cancel sequence over two tasks, and every sequence of 2-3 queueing calls over three tasks behind a blocker task (order clause); horizon 10 virtual minutes; " +
+			"every sequence of <= 2 task API calls (Queue, QueuePrioritized, StartASAP, Schedule +5s/+100s/zero, MaxDelay(0), Cancel; MaxDelay(10s) in the serial family) on two tasks and <= 3 on one task by one submitter, two submitters colliding on one task, self-requeueing and long-running bodies, a task submitted again while another one runs (one after the other; these drivers are also explored during the clock-advance phase, i.e. at the moments the deadlines expire), a timer that comes due while the caller makes its next call, every 3-call schedule/cancel sequence over two tasks, and every sequence of 2-3 queueing calls over three tasks behind a blocker task (order clause); horizon 10 virtual minutes; " +
 			"distinct_nontrivial = distinct observation traces (task begin/end order and virtual times) per scenario")
 		c.Assume("sequential consistency; the unlocked accesses flagged by the authors in executeWithLocking are not separate scheduling points; a submission call concurrent with Cancel or Schedule(zero) may or may not take effect")
 		slib.Run(c, scenarios(c), slib.Opts{})
